@@ -58,9 +58,32 @@ C['peptacular.proforma.proforma_parser:parse_static_mods'] = dict(
 C[CC + 'apply_isotope_mods_to_composition'] = dict(
     params=dict(composition='Comp', isotopic_mods='Optional[ModList]'), returns='Comp', pure=True, trusted=True,
     bounded_by='proved against its own contract in contracts/labelcomp.py (C12)', ensures=[])
+# the composition of a charge-carrier text 'a1,a2,..': the sum of the compositions of its comma-separated ions; one ion 'nXq' is n atoms
+# of X and -q*n electrons (every stated ion loses its own electrons -- the composition side of the recorded finding C02-adduct-electron)
+C[CC + 'parse_ion_elements'] = dict(
+    params=dict(adduct='str'), returns='Tuple[int,str,int]', pure=True, trusted=True, external=True,
+    bounded_by='regular-expression reader of one ion text (count, element, charge): bounded/C02.py / C03.py adduct cases', ensures=[])
+C[CC + '_parse_adduct_comp'] = dict(
+    params=dict(adduct='str'), returns='Comp', pure=True, locals=dict(comp='Comp'), axioms=['A-FINSUM-UPDATE', 'TOT-def', 'WSUM-empty'],
+    checkpoints={'comp = {}': [('empty', 'TOT(comp) == 0')],
+                 'comp[element_symbol] = element_count': [('atoms', 'TOT(comp) == element_count * AW(element_symbol)'),
+                                                          ('electron-entry-so-far', "comp.get('e', 0) == (element_count if element_symbol == 'e' else 0)")],
+                 "comp['e'] =": [('atoms-and-electrons', "TOT(comp) == element_count * AW(element_symbol) + "
+                                  "((-1 * element_charge * element_count) - (element_count if element_symbol == 'e' else 0)) * AW('e')")]},
+    ensures=[('n-atoms-and-the-electrons-of-n-ions',
+              # n * AW(X) + (-q*n) * AW('e') for an element X; written so that X == 'e' (the electron entry is then OVERWRITTEN by -q*n)
+              # is covered without asking the solver for distributivity: n*AW(e) + (-q*n - n)*AW(e)
+              "TOT(result) == parse_ion_elements(adduct)[0] * AW(parse_ion_elements(adduct)[1]) + "
+              "((-1 * parse_ion_elements(adduct)[2] * parse_ion_elements(adduct)[0]) - "
+              "(parse_ion_elements(adduct)[0] if parse_ion_elements(adduct)[1] == 'e' else 0)) * AW('e')")])
 C[CC + '_parse_charge_adducts_comp@default'] = dict(
-    params=dict(adducts='str'), returns='Comp', pure=True, trusted=True,
-    bounded_by='composition of a charge-carrier text: ground obligations ground/c03_tables.py (the 18 ion types), bounded/C03.py', ensures=[])
+    params=dict(adducts='str'), returns='Comp', pure=True, locals=dict(comps='List[Comp]', composition='Comp'),
+    ghost=dict(parts="adducts.split(',')"),
+    ensures=[('sum-over-the-comma-separated-ions', "TOT(result) == psum(lambda a: TOT(_parse_adduct_comp(a)), parts, len(parts))")],
+    invariants={0: [('one-composition-per-ion', 'len(comps) == _k0 and forall(lambda j: implies(0 <= j and j < _k0, comps[j] == _parse_adduct_comp(parts[j])))')],
+                1: [('ions-merged-so-far', 'TOT(composition) == psum(lambda a: TOT(_parse_adduct_comp(a)), parts, _k1)')],
+                2: [('entries-added-so-far', 'TOT(composition) == TOT(composition_at2) + WSUM(comp, _seen2)')]},
+)
 C[CC + '_parse_charge_adducts_comp@adducts'] = dict(
     params=dict(adducts='ModList_item'), returns='Comp', pure=True, trusted=True,
     bounded_by='composition of an adduct entry: bounded/C03.py (adduct lists)', ensures=[])
@@ -117,7 +140,9 @@ _R3 = _RES + ' + TOT(NEUTRAL_FRAGMENT_COMPOSITION_ADJUSTMENTS[ion_type]) + TOT(_
 
 
 def _mside(n):
-    return [('modification-side-%d' % n, 'TOT(mod_composition) == ' + ' + '.join(_S[:n]))]
+    # proved from the facts about the accumulator alone (its previous total, the loop-exit facts): the rest of the path condition (string
+    # facts about the charge-carrier text, the residue side) is dropped -- sound, and it keeps the query small
+    return [('modification-side-%d' % n, 'TOT(mod_composition) == ' + ' + '.join(_S[:n]), dict(only_about=['mod_composition']))]
 
 
 # cuts after the top-level statements (proved there, then assumed): the running totals of the two accumulators
@@ -137,6 +162,8 @@ _CHECKPOINTS = {
                                       ' and TOT(mod_composition) == ' + ' + '.join(_S) + ')')],
     'for k, v in sequence_composition.items()': [('merged-1', 'TOT(composition) == TOT(sequence_composition)')],
     'for k, v in mod_composition.items()': [('merged-2', 'TOT(composition) == TOT(sequence_composition) + TOT(mod_composition)')],
+    # dropping the zero entries does not change the total (A-FINSUM-EXT0), isolated from the arithmetic of the postcondition
+    'composition = {k: v for k, v in composition.items()': [('zero-entries-dropped', 'TOT(composition) == TOT(sequence_composition) + TOT(mod_composition)', dict(only_about=['composition']))],
 }
 _TOTAL = _R3 + ' + ' + ' + '.join(_S)
 _PARAMS = dict(annotation='Annotation', ion_type='str', isotope='int', use_isotope_on_mods='bool')
